@@ -139,9 +139,11 @@ class SimEvaluator:
                         if self.garbage is None:
                             arr[row, j] = 0.0
                         else:
-                            arr[row, j] = round(
-                                hfloat(-1e3, 1e3, self.garbage, "junk", k, row, tag, j), 3
-                            )
+                            g = round(hfloat(-1e3, 1e3, self.garbage, "junk", k, row, tag, j), 3)
+                            if self.garbage % 5 == 0 and abs(g) > 800:
+                                # "arbitrary finite garbage": now and then a huge sentinel value
+                                g = [1e200, -1e300, float(np.finfo(np.float64).max)][int(abs(g)) % 3]
+                            arr[row, j] = g
                             self._fire("garbage_entry")
         # prescribed objective values (a user function may return anything, e.g. exactly zero)
         for f in self.faults:
@@ -214,6 +216,17 @@ class SimEvaluator:
         info: dict[str, Any] = {}
         if self.info:
             info = {"sim_id": np.arange(nrows) + 1000 * k}
+            if self.reuse:
+                # the evaluator keeps one info array per shape and overwrites it for every call
+                buf = self._buffers.get(("info", nrows))
+                if buf is None:
+                    self._buffers[("info", nrows)] = info["sim_id"]
+                else:
+                    for old in self.calls[:-1]:
+                        if getattr(old, "ret_info_ref", None) is not None and any(v is buf for v in old.ret_info_ref.values()):
+                            old.ret_info_ref = None  # its info array is ours to overwrite
+                    buf[...] = info["sim_id"]
+                    info["sim_id"] = buf
         result = EvaluatorResult(objectives=obj, constraints=con, batch_id=k, evaluation_info=info)
         rec.returned = result
         rec.ret_info_ref = info
